@@ -235,6 +235,8 @@ type runner struct {
 	sm         semap.SemMapper
 	hits       []corr.Hit
 	seen       map[string]bool
+	wl         *wlState
+	ls         *locksState
 }
 
 func (r *runner) hit(key, what string) {
@@ -387,7 +389,16 @@ func (r *runner) line(line string) string {
 		return r.newCont(f)
 	case "lock":
 		return r.newLock(f)
+	case "wl":
+		return r.newWL(f)
+	case "locks":
+		return r.newLocks(f)
+	case "acq", "rel":
+		return r.locksOp(f)
 	case "set", "get", "peek", "exist", "del":
+		if r.mode == "wl" {
+			return r.wlOp(f)
+		}
 		return r.contOp(f)
 	case "lk", "rlk":
 		return r.lockOp(f)
@@ -606,6 +617,7 @@ func runCase(c corr.Case) corr.Result {
 		out, _ := guardS(func() string { return r.line(l) })
 		res.Outs = append(res.Outs, out)
 	}
+	r.locksCleanup()
 	res.Hits = r.hits
 	return res
 }
